@@ -50,6 +50,31 @@ H = {
                                                        [("express", "A", "RiskAssessor")]]),
     "S12-reset-vs-consume": ({"A": (3, 0, 0, 0)}, [[("consume", "A", 2, "ATP", False), ("reset", "A")], [("consume", "A", 2, "ATP", False)]]),
 }
+# --- systematic pair family: every unordered pair of operation kinds on a store in a "middle" state -----------
+# stores after SETUP: A = atp 2/4, nadh 3/3, debt 0/2 ; B = atp 2/3
+PAIR_CFG = {"A": (4, 0, 3, 2), "B": (3, 0, 0, 0)}
+PAIR_SETUP = [("consume", "A", 2, "ATP", False), ("consume", "B", 1, "ATP", False)]
+PAIR_OPS = {
+    "spend1": [("consume", "A", 1, "ATP", False)],
+    "spend-topup": [("consume", "A", 3, "ATP", False)],
+    "spend-debt": [("consume", "A", 6, "ATP", True)],
+    "spend-nadh": [("consume", "A", 2, "NADH", False)],
+    "regen": [("regenerate", "A", 2, "ATP")],
+    "convert": [("convert", "A", 2)],
+    "xfer-out": [("transfer", "A", "B", 2, "ATP")],
+    "xfer-in": [("transfer", "B", "A", 2, "ATP")],
+    "reset": [("reset", "A")],
+    "dormancy": [("dormant_in", "A"), ("dormant_out", "A")],
+}
+SETUP = {}
+_names = sorted(PAIR_OPS)
+for _i, _a in enumerate(_names):
+    for _b in _names[_i:]:
+        _n = f"P:{_a}|{_b}"
+        H[_n] = (PAIR_CFG, [PAIR_OPS[_a], PAIR_OPS[_b]])
+        SETUP[_n] = PAIR_SETUP
+PAIRS = [n for n in H if n.startswith("P:")]
+
 QUICK = ["S1-consume-consume", "S2-consume-regenerate", "S3-topup-convert", "S4-debt-debt", "S5-opposite-transfers",
          "S6-transfer-consume", "S7-three-threads", "S8-transfer-vs-two-consumes", "S13-two-agents-express"]
 
@@ -103,7 +128,7 @@ def interleavings(lens):
     return sorted(set(itertools.permutations(ids)))
 
 
-def sequential_outcomes(cfgs, threads, split):
+def sequential_outcomes(cfgs, threads, split, setup=()):
     """Reference: the implementation itself, run sequentially in every order of the calls.
     split=True: a transfer counts as two atomic steps (debit, later credit)."""
     outs = set()
@@ -119,6 +144,8 @@ def sequential_outcomes(cfgs, threads, split):
         steps.append(ts)
     for order in interleavings([len(t) for t in steps]):
         stores = mk_stores(cfgs)
+        for op in setup:
+            apply(stores, op)
         sink = ATP_Store(budget=10**6, gtp_budget=10**6, nadh_reserve=10**6, silent=True)
         sink.atp = sink.gtp = sink.nadh = 0
         pos = [0] * len(steps)
@@ -146,6 +173,8 @@ def make_factory(name):
 
     def make():
         stores = mk_stores(cfgs)
+        for op in SETUP.get(name, ()):
+            apply(stores, op)
         for s in stores.values():
             got = sched.install_locks(s)
             if got != ["_lock"] and not got:
@@ -177,8 +206,8 @@ def make_factory(name):
 def judge_factory(name):
     cfgs, threads = H[name]
     with contextlib.redirect_stdout(_Null()):
-        strict = sequential_outcomes(cfgs, threads, split=False)
-        split = sequential_outcomes(cfgs, threads, split=True)
+        strict = sequential_outcomes(cfgs, threads, split=False, setup=SETUP.get(name, ()))
+        split = sequential_outcomes(cfgs, threads, split=True, setup=SETUP.get(name, ()))
 
     def judge(ex, outcome):
         v = []
@@ -221,16 +250,28 @@ def run_harness(name, bound, opcodes=False, nproc=None):
     return res
 
 
+def _strip(res):
+    res["violations"] = res["violations"][:20]
+    return res
+
+
 def run(ctx):
-    names = QUICK if ctx.tier == "quick" else list(H)
+    names = QUICK + PAIRS if ctx.tier == "quick" else list(H)
     bound = 2 if ctx.tier == "quick" else 3
     total_exec = 0
     per = {}
     # sanity: the CoopLock replacement must find the lock the code actually uses
     s = ATP_Store(budget=1, silent=True)
     ctx.coverage["locks_replaced"] = sched.install_locks(s)
-    for name in common.rotate(names, ctx.seed):
-        res = run_harness(name, bound)
+    big = [n for n in names if not n.startswith("P:")]
+    small = [n for n in names if n.startswith("P:")]
+    results = []
+    for name in common.rotate(big, ctx.seed):  # large trees: parallel inside the harness
+        results.append((name, run_harness(name, bound)))
+    # many small trees: one harness per worker
+    small = common.rotate(small, ctx.seed)
+    results += list(zip(small, common.pmap(lambda n: _strip(run_harness(n, bound, nproc=1)), small)))
+    for name, res in results:
         total_exec += res["executions"]
         per[name] = {"schedules": res["executions"], "distinct_outcomes": len(res["outcomes"]),
                      "sequential_outcomes": res["strict"], "max_choice_points": res["max_choice_points"],
